@@ -1,7 +1,7 @@
 CONFIG = dict(
-    coqfiles=["Props/C04.v", "Props/C04P.v"],
+    coqfiles=["Props/C04.v", "Props/C04P.v", "Props/C04A.v"],
     n_quick=1500, n_thorough=60000, workers_quick=8,
-    sub=["C04P"],
+    sub=["C04P", "C04A"],
     rule="random store geometries (block size 16-64, sector 1/4/16, old 0-3, current 0-3, new 1-3, immutable and mutable growth, in-memory or block-device allocator with 1-3 spare blocks, "
          "flat keys with/without instance or hierarchical, validating CAS or raw read factory) x schedules of 15-45 (thorough: 20-100) atomic steps: uploads fed chunk by chunk through a gated source "
          "(wrong/short/long content, source failures), readers held open, existence checks, composite reads with a gated slicer; non-trivial = a successful read plus at least one of: "
@@ -10,6 +10,8 @@ CONFIG = dict(
               "sector-level device writes of the block-device allocator are not modelled here (block contents are byte arrays written per upload chunk)",
               "the persistent block list (deferred Release() until a state file omitting the block has been written) is not part of Store/Model.v; it is modelled (Persist/PBL.v, Syncer.v), proved (Props/C04P.v) "
               "and tied to the real PersistentBlockList + PeriodicSyncer by the sub-check C04P (harness/c04p.go, Run/R04P.v) whose cases are folded into this check",
+              "NewBlockAtLocation (blocks restored from persistent state) is never called by the store harness; the accounting of the real block-device allocator under NewBlock / NewBlockAtLocation / "
+              "Release / readers / writers is modelled (Alloc/BDA.v), proved (Props/C04A.v) and tied to the real allocator by the sub-check C04A (harness/c04a.go, Run/R04A.v)",
               "SHA-256 as identity of content (an upload is valid iff its bytes equal the object's canonical content)",
               "schedules at the granularity of lock-protected sections / upload chunks / slicer hand-off; Go sync primitives trusted"],
 )
